@@ -5,9 +5,9 @@ CHECK = {
     "units": [
         unit("keysutil", "keysutil", ["keysutil/c17_policy_test.go"], "^TestVerif_C17_Policy$",
              quick={"checks": 1500, "shards": 1, "cap": 600, "steps": 30},
-             thorough={"checks": 1500, "shards": 16, "cap": 1500, "steps": 40}),
+             thorough={"checks": 2500, "shards": 16, "cap": 1800, "steps": 40}),
         unit("transit-api", "transit", ["transit/c17_api_test.go"], "^TestVerif_C17_API$",
              quick={"checks": 1000, "shards": 1, "cap": 600, "steps": 25},
-             thorough={"checks": 800, "shards": 16, "cap": 1500, "steps": 35}),
+             thorough={"checks": 1500, "shards": 16, "cap": 1800, "steps": 35}),
     ],
 }
